@@ -26,7 +26,7 @@ Checks(r) ==
     IF r.deadlock THEN {"Deadlock"}
     ELSE IF r.hang THEN {"Hang"}
     ELSE IF r.panic # "" THEN {"Panic"}
-    ELSE LET res == SeqResultsOf(r.threads)
+    ELSE LET res == SeqResultsOf(r.threads, r.post)
              obs == ObservedOf(r)
          IN (IF obs \in {x.obs : x \in res} THEN {} ELSE {"Linearizable"})
             \cup (IF obs.mw THEN {"MutualWait"} ELSE {})
